@@ -948,6 +948,80 @@ def known_sliver(mon, history, step, monitors):
     return True, f'the hull of {len(bad)} trimmed element(s) {sorted(bad)[:6]} with a degenerate (zero- or full-volume) mosaic child is not closed; boundary and interfaces are assembled consistently'
 
 
+def _ghost(ref):
+    """a reference that SubsetTopology drops (zero volume) although it still carries non-empty edges: a zero-volume sliver mosaic"""
+    return ref is not None and abs(float(ref.volume)) <= 1e-14 and any(float(e.volume) > 0 for e in ref.edge_refs)
+
+
+def known_ghost_neighbour(mon, history, step, monitors):
+    """Second face of the open finding C10-degenerate-mosaic-child-not-closed, at topology level.  All of:
+    * only boundary closure / the face ledger fail, every element is closed by its own edges;
+    * the failing topology is a SubsetTopology S; the element faces that are neither in S.boundary nor in S.interfaces (found by matching
+      face centroids and measures) all belong to an element whose neighbour in the base topology is a zero-volume mosaic with a non-empty
+      edge sliver: SubsetTopology drops that neighbour (bool(ref) is its volume) but SubsetTopology.boundary still subtracts its edge from
+      the exposed face;
+    * the closure and ledger deficits equal the sums over exactly those faces.
+    Returns (bool, explanation)."""
+    from nutils import topology, function
+    if not monitors or not all(m in ('boundary closure', 'face-measure ledger') for m in monitors):
+        return False, 'other monitors failed'
+    S = step.topo
+    while isinstance(S, topology.WithGroupsTopology):
+        S = S.basetopo
+    if not isinstance(S, topology.SubsetTopology):
+        return False, 'not a trimmed topology'
+    T = step.topo
+    geom, geom0 = mon.mgeom(step), step.geom0
+    D = geom.shape[0]
+    if T.ndims != D:
+        return False, 'manifold'
+    bad = _element_defects(mon, T, geom, geom0)
+    if bad is None or bad:
+        return False, 'elements are not closed by their own edges'
+    b, i, e = mon.bench.bnd(T, geom, geom0), mon.bench.itf(T, geom, geom0), mon.bench.edges(T, geom, geom0)
+    if b is None or i is None or e is None:
+        return False, 'assembly not computable'
+    J = function.J(geom)
+    Js = function.J(geom0) if mon.bench.quad else J
+    n = function.normal(geom)
+
+    def pieces(X):
+        if not len(X):
+            return []
+        a, c, z, f = X.integrate_elementwise([Js, geom * Js, n * J, (geom @ n) * J], degree=mon.bench.deg)
+        return [(float(ai), ci / ai if ai else ci, zi, float(fi)) for ai, ci, zi, fi in zip(a, c, z, f)]
+    pe, pb, pi = pieces(e['topo']), pieces(b['topo']), pieces(i['topo'])
+    tol = 1e-7 * max(1., mon.bench.xmax)
+    listed = [(a, c) for a, c, _, _ in pb + pi]
+    try:
+        bconn = S.basetopo.connectivity
+        bidx = [int(S.basetopo.transforms.index(t)) for t in S.transforms]
+    except Exception:
+        return False, 'base connectivity unavailable'
+    offsets = numpy.cumsum([0] + [r.nedges for r in T.references])
+    za, zz, zf, owners = 0., numpy.zeros(D), 0., set()
+    for k, (a, c, z, f) in enumerate(pe):
+        if any(abs(a - a2) <= 1e-7 * max(1., a) and numpy.abs(c - c2).max() <= tol for a2, c2 in listed):
+            continue
+        own = int(e['owner'][k])
+        iedge = int(e['sel'][k] - offsets[own])
+        row = bconn[bidx[own]]
+        j = int(row[iedge]) if iedge < len(row) else -1
+        if j < 0 or not _ghost(S.refs[j]):
+            return False, f'face {iedge} of element {own} is in neither boundary nor interfaces and its base neighbour is not a zero-volume sliver'
+        za, zz, zf = za + a, zz + z, zf + f
+        owners.add(own)
+    if not owners:
+        return False, 'no unlisted face'
+    s = mon.scale(b['area'], i['area'])
+    v = mon.bench.vol(T, geom)
+    ok = abs(e['total'] - (b['area'] + 2 * i['area']) - za) <= 1e-9 * s and numpy.abs(b['z'] + zz).max() <= 1e-9 * s \
+        and abs((b['flux'] - i['jumpn']) + zf - D * v['vol']) <= 1e-9 * s
+    if not ok:
+        return False, 'deficits are not the sums over the unlisted faces'
+    return True, f'faces (measure {za:.6g}) of elements {sorted(owners)[:6]} towards a dropped zero-volume sliver neighbour are missing from the boundary; everything else is consistent'
+
+
 # ------------------------------------------------------------------ one history
 
 def evaluate(history, res):
@@ -1011,7 +1085,7 @@ def evaluate(history, res):
                     return None, [], None
             if mon.problems:
                 mech, why = None, ''
-                for fid, pred in (KNOWN, known_mechanism), (KNOWN2, known_retrim), (KNOWN3, known_sliver):
+                for fid, pred in (KNOWN, known_mechanism), (KNOWN2, known_retrim), (KNOWN3, known_sliver), (KNOWN3, known_ghost_neighbour):
                     try:
                         known, why = pred(mon, history, step, [m for m, _ in mon.problems])
                     except Exception as e:
